@@ -19,12 +19,12 @@ DS_BREAKING = (
      "wrong_band_disp_names", "min_gt_max", "size_mismatch"] + ["drop_attr:" + a for a in ATTRS]
 )
 DS_PRESERVING = ["add_classif", "add_segm", "partly_nan", "extra_attr", "right_with_disparity", "add_msk",
-                 "right_drop_disparity"]
+                 "right_drop_disparity", "first_band_all_nan"]
 
 IN_BREAKING = ["img_missing", "img_empty", "img_garbage", "img_directory", "img_truncated", "nodata_float",
                "mask_garbage", "mask_wrong_size", "classif_wrong_size", "segm_garbage", "disp_reversed",
                "grid_one_band", "grid_three_bands", "grid_wrong_size", "grid_min_gt_max", "right_grid_with_left_ints",
-               "right_list", "left_disp_missing"]
+               "right_list", "left_disp_missing", "right_img_wrong_size", "right_grid_three_bands"]
 IN_PRESERVING = ["nodata_nan_str", "nodata_nan_float", "nodata_int", "extras_null", "classif_ok", "segm_ok",
                  "mask_ok"]
 # fault-then-repair pairs: a path is named while nothing readable is there, later the same path holds a good file
@@ -122,6 +122,11 @@ def apply_ds_op(op, ds, w):
         flat[: max(1, flat.size // 3)] = np.nan
         if np.isnan(d["im"].data).all():
             return False
+    elif name == "first_band_all_nan":
+        # multiband image whose first band only is NaN: the image is not entirely NaN
+        if "im" not in d or d["im"].ndim != 3 or d["im"].shape[0] < 2 or np.isnan(d["im"].data[1:]).all():
+            return False
+        d["im"].data[0] = np.nan
     elif name == "extra_attr":
         d.attrs["verif_extra"] = 42
     elif name == "right_with_disparity":
@@ -215,6 +220,19 @@ def apply_in_op(op, inp, w, tmp, uid):
         inp["right"]["disp"] = p("rgrid.tif")
     elif name == "right_list":
         inp["right"]["disp"] = [-2, 2]
+    elif name == "right_img_wrong_size":
+        bands = w["bands"]
+        files.write_raster(p("right_ws.tif"), np.ones((bands, rows, cols + 2), dtype=np.float32),
+                           descriptions=(w.get("band_names") or world.BAND_NAMES[:bands]) if bands > 1 else None)
+        inp["right"]["img"] = p("right_ws.tif")
+        inp["right"].pop("mask", None)
+    elif name == "right_grid_three_bands":
+        if not isinstance(inp["left"].get("disp"), str):
+            return False
+        lo = np.full((rows, cols), -2, dtype=np.float32)
+        hi = np.full((rows, cols), 2, dtype=np.float32)
+        files.write_raster(p("rgrid3.tif"), np.stack([lo, hi, hi]), dtype="float32")
+        inp["right"]["disp"] = p("rgrid3.tif")
     elif name == "left_disp_missing":
         inp["left"].pop("disp", None)
     elif name == "mask_path_missing":
